@@ -170,16 +170,21 @@ Print Assumptions C08_model_meets_oracle_decoders.
 
 (* ---- the request encoder of the clients ---- *)
 
-(* NewRequestPacket + EncodePacket never panic while the first cookie has at most 928 bytes ... *)
-Theorem C08_nts_client_request_total_partial : forall navail clen,
-  1 <= navail -> 0 <= clen <= 928 -> is_ok (nts_client_request navail clen).
-Proof. exact nts_client_request_ok. Qed.
-Print Assumptions C08_nts_client_request_total_partial.
+(* The cookies a client holds come from the network (NTS-KE Cookie records, cookie fields inside
+   authenticated NTS replies).  Fetcher.exchangeKeys and Fetcher.StoreCookie keep only cookies of
+   at most ntske.MaxCookieLen = 896 bytes (fix df23410); for those NewRequestPacket + EncodePacket
+   never panic (the proof covers up to 928 bytes; beyond 896 the packet would be cut at 1024). *)
+Theorem C08_nts_client_request_total : forall navail clen,
+  1 <= navail -> 0 <= clen <= 896 -> is_ok (nts_client_request navail clen).
+Proof. exact nts_client_request_ok_896. Qed.
+Print Assumptions C08_nts_client_request_total.
 
-(* ... but the full statement (for every cookie length an NTS-KE server or an authenticated NTS
-   reply can deliver, 0..65535) is false of the code: a cookie of 929 bytes makes EncodePacket
-   index past the 1024-byte buffer *)
-Theorem C08_nts_client_request_refuted : exists navail clen,
+Example C08_nts_client_request_example : nts_client_request 1 896 = Ok 1024.
+Proof. vm_compute. reflexivity. Qed.
+
+(* the bound kept by the fetcher is needed: with a cookie of 929 bytes EncodePacket indexes past
+   its 1024-byte buffer (the defect this check found in the pinned tree) *)
+Theorem C08_nts_client_request_needs_cookie_bound : exists navail clen,
   1 <= navail /\ 0 <= clen < 65536 /\ nts_client_request navail clen = Panic.
 Proof. exact nts_client_request_refuted. Qed.
-Print Assumptions C08_nts_client_request_refuted.
+Print Assumptions C08_nts_client_request_needs_cookie_bound.
